@@ -17,10 +17,14 @@ import (
 // round: 检测方式
 // counter: 结果集统计
 // readErr: 记录首个随机源读取错误
-func worker(jobs chan int, source io.Reader, n int, round func([]byte) []*randomness.TestResult, counter []int32, distributions [][]float64, wait *sync.WaitGroup, readErr *firstError) {
+// readMu: 随机源读取锁，所有工作器共享
+func worker(jobs chan int, source io.Reader, readMu *sync.Mutex, n int, round func([]byte) []*randomness.TestResult, counter []int32, distributions [][]float64, wait *sync.WaitGroup, readErr *firstError) {
 	buf := make([]byte, n, n*2)
 	for i := range jobs {
-		_, err := source.Read(buf)
+		// 一次Read不保证读满缓冲区；加锁读满，保证每个样本都由连续的新读取数据组成
+		readMu.Lock()
+		_, err := io.ReadFull(source, buf)
+		readMu.Unlock()
 		if err != nil {
 			// 读取失败时同样需要通知完成，否则调用方将永久阻塞
 			readErr.set(err)
@@ -43,9 +47,10 @@ func worker(jobs chan int, source io.Reader, n int, round func([]byte) []*random
 func bootWorker(source io.Reader, n int, round func([]byte) []*randomness.TestResult, counter []int32, distributions [][]float64) (chan int, *sync.WaitGroup, *firstError) {
 	var wait sync.WaitGroup
 	var readErr firstError
+	var readMu sync.Mutex
 	jobs := make(chan int)
 	for i := 0; i < runtime.NumCPU(); i++ {
-		go worker(jobs, source, n, round, counter, distributions, &wait, &readErr)
+		go worker(jobs, source, &readMu, n, round, counter, distributions, &wait, &readErr)
 	}
 	return jobs, &wait, &readErr
 }
